@@ -25,6 +25,20 @@ reg("C05", "exploration",
     "is not shown.",
     BASE_NOTE + "Indices are ints; notifiers do not raise.", "DESIGN.md 3/C05")
 
+reg("C06", "exploration",
+    "Hypothesis op histories vs transactional builtin-dict model + event reconstruction law",
+    "Generated histories over every TraitDict mutator with coercing/rejecting validators, on a bare TraitDict and on a "
+    "Dict trait with an observer between two raw notifiers; after each op contents/result/exception class are compared "
+    "with a dict model and the previous contents are reconstructed from every event. Sampling, not exhaustive.",
+    BASE_NOTE + "Multi-fault calls are judged by the first fault in left-to-right order.", "DESIGN.md 3/C06")
+
+reg("C07", "exploration",
+    "Hypothesis op histories vs builtin-set model + delta law + copy/pickle round-trip laws",
+    "Generated histories over every TraitSet mutator (0-3 iterables, overlapping/disjoint/invalid/unhashable items) with "
+    "copies taken mid-history; contents and exception classes are compared with a builtin set and every event with the "
+    "delta law. Sampling, not exhaustive.",
+    BASE_NOTE + "CPython's hashing shortcuts in set.intersection_update are not demanded of TraitSet.", "DESIGN.md 3/C07")
+
 
 def main():
     props = [json.loads(l) for l in open(os.path.join(ROOT, "properties.jsonl"))]
